@@ -623,9 +623,22 @@ def has_nan(v):
 class BigDriver(hlib.Driver):
     """the Lean model is written with plain structural recursion: give the native driver a large stack for long payloads"""
 
+    def __init__(self):
+        import time
+        super().__init__()
+        # several checks share one .lake: the binary is briefly absent while another check relinks it
+        t0 = time.time()
+        while not self.available and time.time() - t0 < 90:
+            time.sleep(2)
+            self.available = os.path.exists(hlib.DRIVER) and os.access(hlib.DRIVER, os.X_OK)
+
     def run(self, lines, timeout: float = 900.0):
+        import time
         if not self.available:
             raise RuntimeError("driver not built")
+        t0 = time.time()
+        while not (os.path.exists(hlib.DRIVER) and os.access(hlib.DRIVER, os.X_OK)) and time.time() - t0 < 90:
+            time.sleep(2)
 
         def limits():
             try:
@@ -637,7 +650,17 @@ class BigDriver(hlib.Driver):
             except (ValueError, OSError):
                 pass
         data = ("\n".join(lines) + "\n").encode()
-        p = subprocess.run([hlib.DRIVER], input=data, stdout=subprocess.PIPE, stderr=subprocess.PIPE, timeout=timeout, check=False, preexec_fn=limits)
+        p = None
+        for _ in range(60):
+            try:
+                p = subprocess.run([hlib.DRIVER], input=data, stdout=subprocess.PIPE, stderr=subprocess.PIPE, timeout=timeout, check=False, preexec_fn=limits)
+                break
+            except (FileNotFoundError, PermissionError, OSError) as exc:     # being relinked by a concurrent check
+                if isinstance(exc, subprocess.TimeoutExpired):
+                    raise
+                time.sleep(2)
+        if p is None:
+            raise RuntimeError("driver binary not present")
         out = p.stdout.decode().split("\n")
         if out and out[-1] == "":
             out.pop()
